@@ -75,6 +75,7 @@ type world struct {
 	hostile   bool
 	smallUTXO bool
 	// special transactions
+	holding                int    // held-back transactions not yet released
 	mstNonce               uint64 // next nonce of the multi-sign account
 	mstPending, cutPending int    // submitted, not yet executed
 	signers                []int  // signer accounts registered by a committed multi-sign tx (nil = none yet)
@@ -201,7 +202,10 @@ func (w *world) gen() []*genTx {
 	var pre []*genTx
 	// Delayed-successor scenario: hold back a transfer of this account for 1-2 heights; whatever the
 	// account sends next waits in the pool's future queue (already admitted) until the gap closes.
-	if r.Chance(0.07) {
+	// (One account at a time: the pool promotes queued transactions account by account in Go map order, and a
+	// case must stay a function of its seed.)
+	if r.Chance(0.12) && w.holding == 0 {
+		w.holding++
 		to, dk := w.plainDest()
 		n := w.takeNonce(a)
 		tx, err := chainkit.NewTransfer(w.g.Accounts[a], n, to, bi(int64(r.Range(1, 50))))
